@@ -9,6 +9,7 @@ package props
 // continuity across hand-offs); every history ends with traffic both ways.
 
 import (
+	"strings"
 	"bytes"
 	"context"
 	"fmt"
@@ -160,6 +161,14 @@ func c15Setup(id string, res *vlib.Result) *c15World {
 	da.Add(A.conn.W)
 	B.conn.R, A.conn.W = A.conn.W, nil
 	_, _ = B.s.ReceiveCompleteMessage(ctx)
+	if strings.HasPrefix(id, "rekeyed") {
+		// both ends were keyed once before (another key) and then re-keyed: a legal history of
+		// a stream; the exported state must carry the key in use NOW
+		other := append([]byte(nil), testKey...)
+		other[5] ^= 0x5a
+		_ = A.s.SetSymmetricKey(other)
+		_ = B.s.SetSymmetricKey(other)
+	}
 	_ = A.s.SetSymmetricKey(testKey)
 	_ = B.s.SetSymmetricKey(testKey)
 	A.dir, _ = refcodec.NewDir(testKey, da.Sum(), [32]byte{})
@@ -468,7 +477,7 @@ func c15BlobFaults(tier string) *vlib.Result {
 func C15Plan() *vlib.Plan {
 	p := &vlib.Plan{
 		Property: "C15", Level: "model_checking",
-		Rule:   "E-BFS: all histories of length <= D over 12 operations (1/5000-byte message each way, begin/finish partial send, begin/finish partial receive, hand-off of A, hand-off of B, B pipelines two messages of which A reads the first - the second stays in flight on the connection -, A reads the in-flight message) replayed on two fresh real streams keyed after a cleartext preamble; in every state ExportCryptoState is attempted on both ends and must succeed only if the reference model says established+clean; every frame on the wire is opened by the reference decryptor (nonce continuity across hand-offs, no reuse); each history ends with four further messages. Blob faults: every truncation, magic and version variants must be rejected. Non-trivial = history in which an export was attempted after at least one protected frame.",
+		Rule:   "E-BFS: all histories of length <= D over 12 operations (1/5000-byte message each way, begin/finish partial send, begin/finish partial receive, hand-off of A, hand-off of B, B pipelines two messages of which A reads the first - the second stays in flight on the connection -, A reads the in-flight message) replayed on two fresh real streams keyed after a cleartext preamble; in every state ExportCryptoState is attempted on both ends and must succeed only if the reference model says established+clean; every frame on the wire is opened by the reference decryptor (nonce continuity across hand-offs, no reuse); each history ends with four further messages; histories of <= 4 operations that contain a hand-off also run on streams that were keyed with another key first and then re-keyed. Blob faults: every truncation, magic and version variants must be rejected. Non-trivial = history in which an export was attempted after at least one protected frame.",
 		Assume: []string{"a conservative refusal (e.g. after EndMessage until StartMessage) is recorded, not flagged; single-byte corruption of key/IV/counter bytes is outside the statement (counted)"},
 	}
 	p.Gen = func(tier string, yield func(vlib.Case)) {
@@ -490,6 +499,14 @@ func C15Plan() *vlib.Plan {
 				r.Sample = names
 				return r
 			}})
+			// histories with a hand-off also on streams that were re-keyed before the traffic
+			for _, o := range hh {
+				if strings.HasPrefix(c15Ops[o], "handoff") && len(hh) <= 4 {
+					rid := "rekeyed " + id
+					yield(vlib.Case{ID: rid, Run: func() *vlib.Result { return c15Run(rid, hh) }})
+					break
+				}
+			}
 			if len(h) == D {
 				return
 			}
